@@ -210,3 +210,97 @@ Proof.
   eexists. split; [exact R|]. split; [reflexivity|]. split; [reflexivity|].
   intros H. destruct (H 1%nat (OClaim ex_key ex_b)) as [E _]; [discriminate | reflexivity | reflexivity | discriminate].
 Qed.
+
+(* two readers hold the shard's lock at the same time *)
+Lemma ex_two_readers : exists c,
+  t_reach ex_progs c /\ t_st (c_th c 0%nat) = TLocked (OLookup ex_key) /\ t_st (c_th c 1%nat) = TLocked (OLookup ex_key).
+Proof.
+  assert (R : t_reach ex_progs (init (store_of new_registry) ex_progs)) by constructor.
+  unfold init in R.
+  go R 0%nat s_invoke. go R 1%nat s_invoke.
+  go R 1%nat s_acquire. go R 1%nat s_read. go R 1%nat s_finish. go R 1%nat s_unlock. go R 1%nat s_respond.
+  go R 0%nat s_acquire. go R 0%nat s_read. go R 0%nat s_finish. go R 0%nat s_unlock. go R 0%nat s_respond.
+  go R 0%nat s_invoke. go R 1%nat s_invoke.
+  go R 0%nat s_acquire. go R 1%nat s_acquire.
+  eexists. split; [exact R|]. split; reflexivity.
+Qed.
+
+(* ---- call sites as concurrent operations: the registry operation TOGETHER WITH the events the
+        component publishes from its return value ----
+   A site operation = (protocol of the component, does it evict same-protocol sessions, registry op);
+   its result = (registry result, published session ids).  The critical section is the registry
+   method; the events are computed from that method's own return value. *)
+Definition site_op := (bytes * bool * op)%type.
+Definition site_ret := (ret * list bytes)%type.
+Definition site_events_v (any : bool) (self : bytes) (o : op) (x : ret) : list bytes :=
+  match o, x with
+  | OClaim _ _, ROwner prev => if any || negb (bytes_eqb (o_proto prev) self) then [o_sid prev] else []
+  | _, _ => []
+  end.
+Definition site_step (s : shard) (so : site_op) : shard * site_ret :=
+  let '(self, any, o) := so in
+  let sr := shard_step s o in (fst sr, (snd sr, site_events_v any self o (snd sr))).
+Definition site_lock (so : site_op) : nat := lock_of (snd so).
+Definition site_is_read (so : site_op) : bool := op_is_read (snd so).
+Lemma site_step_read_pure s so : site_is_read so = true -> fst (site_step s so) = s.
+Proof. destruct so as [[self any] o]. unfold site_is_read, site_step. simpl. apply shard_step_read_pure. Qed.
+
+Definition s_reach (progs : nat -> list site_op) :=
+  reach Nat.eq_dec site_lock site_is_read site_step (store_of new_registry) progs.
+
+(* sequential legality for site histories, over the registry model *)
+Fixpoint site_legal (r : registry) (lin : list (entry site_op site_ret)) : Prop :=
+  match lin with
+  | [] => True
+  | e :: rest =>
+      let '(self, any, o) := e_op e in
+      e_ret e = (snd (reg_step r o), site_events_v any self o (snd (reg_step r o))) /\
+      site_legal (fst (reg_step r o)) rest
+  end.
+
+Lemma site_repr_step s r so : repr s r ->
+  snd (gstep Nat.eq_dec site_lock site_step s so) =
+    (snd (reg_step r (snd so)), site_events_v (snd (fst so)) (fst (fst so)) (snd so) (snd (reg_step r (snd so)))) /\
+  repr (fst (gstep Nat.eq_dec site_lock site_step s so)) (fst (reg_step r (snd so))).
+Proof.
+  destruct so as [[self any] o]. intros Hr. destruct (repr_step s r o Hr) as [A B].
+  unfold gstep, site_lock, site_step in *. cbn [fst snd] in *. rewrite A. split; [reflexivity | exact B].
+Qed.
+Lemma site_legal_of lin : forall s r, repr s r ->
+  legal Nat.eq_dec site_lock site_step s lin -> site_legal r lin.
+Proof.
+  induction lin as [|e rest IH]; intros s r Hr; cbn [legal site_legal]; [auto|].
+  destruct (site_repr_step s r (e_op e) Hr) as [E R'].
+  destruct (e_op e) as [[self any] o] eqn:Eo. cbn [fst snd] in *. intros [H1 H2]. split; [congruence|].
+  eapply IH; eauto.
+Qed.
+
+(* every complete concurrent history of call-site invocations of both components (results = registry
+   result AND published events) is linearizable w.r.t. the sequential call-site specification *)
+Lemma call_sites_linearizable progs c :
+  s_reach progs c -> quiescent c ->
+  exists lin : list (entry site_op site_ret),
+    (forall t, proj t (c_hist c) = proj t (expand lin)) /\
+    site_legal new_registry lin /\ NoDup (ids lin) /\
+    (forall a r b o, before (ERes a r) (EInv b o) (c_hist c) -> before a b (ids lin)).
+Proof.
+  intros R Q.
+  destruct (@atomic_ops_linearizable _ _ _ _ Nat.eq_dec site_lock site_is_read site_step site_step_read_pure _ _ _ R Q)
+    as [lin [A [B [C D]]]].
+  exists lin. repeat split; auto. eapply site_legal_of; [apply repr_new | exact B].
+Qed.
+
+(* in a legal site history an event is published exactly for a reported displacement: the events of
+   an entry are a function of its own registry result, so "reported once" (C17_legal_reported_once)
+   carries over to "published once" *)
+Lemma site_legal_pairs lin : forall r, site_legal r lin ->
+  legal_from r (map (fun e => (snd (e_op e), fst (e_ret e))) lin) /\
+  forall e, In e lin -> snd (e_ret e) = site_events_v (snd (fst (e_op e))) (fst (fst (e_op e))) (snd (e_op e)) (fst (e_ret e)).
+Proof.
+  induction lin as [|e rest IH]; intros r H.
+  - split; [exact I | intros e []].
+  - cbn [site_legal] in H. cbn [map legal_from].
+    destruct e as [[id [[self any] o]] x]. unfold e_op, e_ret in *. cbn [fst snd] in *.
+    destruct H as [H1 H2]. destruct (IH _ H2) as [A B]. subst x. cbn [fst snd]. split; [split; [reflexivity | exact A]|].
+    intros e' [<-|Hin]; [reflexivity | apply B; exact Hin].
+Qed.
